@@ -108,20 +108,34 @@ class CovGhost:
     def __call__(self, u, v, theta):
         st = self.st
         st.check_theta("cov", theta)
-        if u is st.points or (isinstance(u, Tensor) and getattr(u, "is_points", False)):
-            if v is st.x:
-                return st.Kqx
-            if v is u:
-                return st.Kqq
-        if isinstance(u, Tensor) and u.ndim == 2:
-            t = row_index(u)
-            self._same_row(u, t)
-            sel = M.selector(t, st.m)
-            if v is st.x:
-                return sel @ st.Kqx
-            if v is u:
-                return sel @ st.Kqq @ sel.T
-        raise Unsupported("kernel called on an unexpected pair of point sets")
+
+        def side(a):
+            """(selector or None for 'all rows', which point set) of one argument of the kernel"""
+            if a is st.x:
+                return None, "x"
+            if a is st.points or (isinstance(a, Tensor) and getattr(a, "is_points", False)):
+                return None, "points"
+            from pyvc.tensor import dim_eq
+            if isinstance(a, Tensor) and a.ndim == 2 and dim_eq(a.shape[0], 1):
+                t = row_index(a)
+                self._same_row(a, t)
+                return M.selector(t, st.m), "points"
+            raise Unsupported("kernel called on an unexpected point set")
+
+        (su, wu), (sv, wv) = side(u), side(v)
+        if wu == "points" and wv == "x":
+            K = st.Kqx
+        elif wu == "points" and wv == "points":
+            K = st.Kqq
+        elif wu == "x" and wv == "points":
+            K = st.Kqx.T
+        else:
+            raise Unsupported("kernel called on the training inputs twice (use build_covariance)")
+        if su is not None:
+            K = su @ K
+        if sv is not None:
+            K = K @ sv.T
+        return K
 
     def _same_row(self, u, t):
         st = self.st
